@@ -257,6 +257,12 @@ def check(case, ctx):
             st4, ba = lib.call(p.parse, back)
             if st4 != 'ok' or pmodel.diff(exp, pmodel.observed(ba)) or back != canon:
                 ctx.fail('add_mods(strip_mods,get_mods)', canon, back, text=s)
+        for append, plus in ((False, False), (True, True)):
+            st6, back2 = lib.call(p.add_mods, stripped, _copy.deepcopy(md), append, plus)
+            ctx.evals += 1
+            want = a.serialize(include_plus=plus)
+            if st6 != 'ok' or back2 != want:
+                ctx.fail('add_mods-options', want, back2, text=s, append=append, include_plus=plus)
         st5, pm = lib.call(p.pop_mods, s)
         ctx.evals += 1
         if st5 != 'ok' or pm[0] != P['seq'] or lib.dump(pm[1]) != lib.dump(md):
